@@ -442,8 +442,10 @@ def main():
             "wall_s": round(wall, 2),
             "violations": len(by_sig) + (1 if (not by_sig and broken) else 0),
         }
-        os.makedirs(os.path.join(ROOT, "evidence"), exist_ok=True)
-        json.dump(ev, open(os.path.join(ROOT, "evidence", "%s.json" % pid), "w"), indent=1, ensure_ascii=False)
+        # evidence describes runs against /repo itself; runs against a scratch worktree (VERIF_REPO) go elsewhere
+        evdir = os.path.join(ROOT, "evidence") if REPO == "/repo" else os.path.join(BUILD, "evidence-scratch")
+        os.makedirs(evdir, exist_ok=True)
+        json.dump(ev, open(os.path.join(evdir, "%s.json" % pid), "w"), indent=1, ensure_ascii=False)
     log("%s %s: theorems %d/%d, cases %d (non-trivial %d), I!=M %d, I!=S %d, known %d, %.1fs -> exit %d" % (
         pid, tier, discharged, len(thms), summ.get("evaluations", 0), summ.get("distinct_nontrivial", 0),
         len(bad_im), len(violations), len(known_hit), wall, exit_code))
